@@ -49,11 +49,11 @@ def sh(cmd, timeout=None, cwd=None, inp=None, env=None):
     """run a command, return (rc, stdout, stderr); rc = 124 on timeout"""
     try:
         p = subprocess.run(cmd, shell=isinstance(cmd, str), cwd=cwd, input=inp, capture_output=True,
-                           text=True, timeout=timeout, env=env)
+                           text=True, errors="replace", timeout=timeout, env=env)
         return p.returncode, p.stdout, p.stderr
     except subprocess.TimeoutExpired as e:
-        so = e.stdout.decode() if isinstance(e.stdout, bytes) else (e.stdout or "")
-        se = e.stderr.decode() if isinstance(e.stderr, bytes) else (e.stderr or "")
+        so = e.stdout.decode(errors="replace") if isinstance(e.stdout, bytes) else (e.stdout or "")
+        se = e.stderr.decode(errors="replace") if isinstance(e.stderr, bytes) else (e.stderr or "")
         return 124, so, se
 
 
